@@ -220,7 +220,7 @@ def cases(tier):
         # mismatched shapes of the same rank
         for a in shapes:
             for b in shapes:
-                if a != b and a[0] == b[0] and a[-1] == b[-1] and (tier == "thorough" or op in ("add", "div")):
+                if a != b and a[0] == b[0] and a[-1] == b[-1]:
                     out.append(("ew", op, a, b, False))
         # indexed vs named of the same size
         for a in shapes:
